@@ -989,6 +989,12 @@ def hunt_deadlock(check, attempts=8, nstreams=2000):
     return out
 
 
+extra_targets = ["Extract/ExtractSchedX.vo"]
+gen_files = ["SchedXTab.v"]
+extra_props_c11 = ["Properties.Properties_C11x"]
+extra_props_c13 = ["Properties.Properties_C13x"]
+
+
 # ---------------------------------------------------------------------------
 # entry points for C11 / C13 (decompression part)
 # ---------------------------------------------------------------------------
